@@ -250,6 +250,17 @@ def check(ctx):
             ctx.unknown("R01.2", inst, str(e))
             continue
         _verdict(ctx, disp, inst, pr)
+    # whatever order the per-axis step leaves the other dimensions in (padding across faces concatenates along the face
+    # dimension and brings it to the front), the result comes back in the input's order
+    for in_dims, axes_, tos in (([Sym("t"), Sym("face"), Sym("z"), dimsym("AX", "center")], ["AX"], "left"), ([Sym("t"), dimsym("AX", "center"), Sym("face"), dimsym("AY", "center")], ["AX", "AY"], "left")):
+        inst = f"dispatch with an intermediate result whose other dimensions are reordered, dims {[str(d) for d in in_dims]}"
+        try:
+            outs = run_dispatch(P, "diff", {a: "center" for a in axes_}, tos, axnames=tuple(axes_) if len(axes_) > 1 else ("AX",), axis_arg=[Sym(a) for a in axes_], dims=in_dims, reorder_noncore=True)
+            pr = expect_run(inst, outs, [(a, "center", tos) for a in axes_], in_dims)
+        except Unmodelled as e:
+            ctx.unknown("R01.3", inst, str(e))
+            continue
+        _verdict(ctx, disp, inst, pr)
     # default shifts
     for fr in POSITIONS:
         for dflt in POSITIONS:
